@@ -15,6 +15,7 @@ Oracles (the Go harness harness/root/cmd/e2e only records observations):
 import json
 import os
 import re
+import shutil
 import time
 
 from .. import common as C
@@ -42,6 +43,14 @@ def build_e2e():
     with open(ov, "w") as f:
         json.dump({"Replace": {C.V + "/harness/root/cmd/e2e/scanned.go": gpath}}, f)
     return C.build_harness("root", pkg="./cmd/e2e", extra=["-overlay", ov])
+
+
+def scratch_env(ctx, work):
+    """environment of an e2e harness run: its scratch files live below <work>/scratch (outside /repo and /verif/harness), removed afterwards"""
+    e = ctx.env()
+    os.makedirs(work + "/scratch", exist_ok=True)
+    e["VERIF_E2E_SCRATCH"] = work + "/scratch"
+    return e
 
 
 def unhex(h):
@@ -113,7 +122,8 @@ def stage(ctx):
     restarts = 0
     while True:
         args = [hb, "methods", ctx.tier, work, api] + (["from=%d" % frm] if frm else [])
-        rc, out = C.sh(args, env=ctx.env(), timeout=2400 if ctx.tier == "thorough" else 600)
+        rc, out = C.sh(args, env=scratch_env(ctx, work), timeout=2400 if ctx.tier == "thorough" else 600)
+        shutil.rmtree(work + "/scratch", ignore_errors=True)
         rows = C.read_tsv(work + "/mcalls.txt") if os.path.exists(work + "/mcalls.txt") else []
         if rows and rows[-1][0] == "END":
             break
@@ -317,3 +327,18 @@ def judge(ctx, work, rows, died):
                 "of the extracted TL model",
         "samples": samples,
     }
+
+
+def replay(ctx, path):
+    """re-run the stage under the replay's tier and seed; the finding is reproduced iff its key is reported again"""
+    obj = json.load(open(path))
+    ctx.tier = obj.get("tier", ctx.tier)
+    ctx.seed = obj.get("seed", ctx.seed)
+    stage(ctx)
+    hit = [v for v in ctx.violations if v[0] == obj.get("key")]
+    print("method=%s arguments=%s\n expected=%s\n got=%s" % (obj.get("method"), T.short(str(obj.get("arguments")), 300), T.short(str(obj.get("expected")), 600),
+                                                             T.short(str(hit[0][2].get("got")), 600) if hit else "as expected"))
+    if hit:
+        print("VIOLATION property=%s replay=%s" % (ctx.prop, path))
+        return 1
+    return 0
